@@ -417,6 +417,40 @@ example : (finalize demo).2 = none ∧ (finalize demo).1.order = ["a", "s", "_no
     (finalize demo).1.kind "_not_s" = some (.c .not) := by
   decide
 
+/-! ### the form in which a group is handed over is not an input
+
+    `connect()` stores `tuple(inp)` for every keyword argument that `_is_multiple` accepts -- a
+    tuple, a list, any other Sequence, an iterator or a generator.  In the model a group IS its
+    member list; a tuple / list VALUE given for a keyword is normalised to the group of its items
+    (`normInp`).  Everything after `connect` (finalisation, connection data, `get_conf`,
+    `input_signature`, `check_signature`) is a function of the circuit, so it depends on the
+    member lists only. -/
+
+/-- `connect_depends_on_members`: two `connect()` calls whose keyword arguments have the same
+    names and, after normalisation, the same member lists give the same circuit (or the same error) -/
+theorem connect_depends_on_members (c : Circ) (b : String) (pos : List Ref) (named1 named2 : Inputs)
+    (h : named1.map (fun p => (p.1, normInp p.2)) = named2.map (fun p => (p.1, normInp p.2))) :
+    connect c b pos named1 = connect c b pos named2 := by
+  have hlen : named1.isEmpty = named2.isEmpty := by
+    have := congrArg List.length h
+    simp only [List.length_map] at this
+    cases named1 <;> cases named2 <;> simp_all
+  have hany : named1.any (fun p => p.1 == "_") = named2.any (fun p => p.1 == "_") := by
+    have e : ∀ l : Inputs, l.any (fun p => p.1 == "_") =
+        (l.map (fun p => (p.1, normInp p.2))).any (fun p => p.1 == "_") := by
+      intro l; rw [List.any_map]; rfl
+    rw [e named1, e named2, h]
+  unfold connect connectInputs
+  rw [hlen, hany, h]
+
+/-- a tuple value, a list value and the explicit group of their items are the same input -/
+theorem group_forms_agree (c : Circ) (b k : String) (pos : List Ref) (l : List Atom) (rest : Inputs) :
+    connect c b pos ((k, .single (.val (.tup l))) :: rest) =
+      connect c b pos ((k, .group (l.map fun a => .val (.atom a))) :: rest) ∧
+    connect c b pos ((k, .single (.val (.lst l))) :: rest) =
+      connect c b pos ((k, .group (l.map fun a => .val (.atom a))) :: rest) := by
+  constructor <;> apply connect_depends_on_members <;> simp [normInp]
+
 /-! ### shape of the inputs: `check_signature` (called by `start()` of Not, Override, Compare and
     of custom blocks) -/
 
